@@ -60,6 +60,17 @@ def run(res, tier, lean, prop="C01", proof_breaks=(), build_log=""):
     outside = True              # nothing outside the tree is watched (D2 repaired): operations there must stay silent
     if True:
         hists += [
+            # a populated directory from OUTSIDE the tree replaces an existing empty watched directory (the replaced inode's
+            # watch dies afterwards: IN_DELETE_SELF / IN_IGNORED follow the IN_MOVED_TO): the arrival and what it holds must be
+            # watched from then on; the same inside the tree (the re-keying branch)
+            ([("mkdir", "W/db"), ("mkdir", "O/a"), ("mkdir", "O/a/d"), ("create", "O/a/d/a")],
+             [("rename", "O/a", "W/db"), ("create", "W/db/b"), ("create", "W/db/d/b"), ("rename", "W/db", "W/dd"), ("create", "W/dd/d/d"),
+              ("rmtree", "W/dd")]),
+            ([("mkdir", "W/db"), ("mkdir", "W/a"), ("mkdir", "W/a/d"), ("create", "W/a/d/a")],
+             [("rename", "W/a", "W/db"), ("create", "W/db/b"), ("create", "W/db/d/b"), ("mkdir", "W/a"), ("rename", "W/a", "W/db/d/dd"),
+              ("create", "W/db/d/dd/a")]),
+            ([("mkdir", "W/d"), ("mkdir", "W/d/db"), ("mkdir", "O/a"), ("mkdir", "O/a/d")],
+             [("rename", "O/a", "W/d/db"), ("create", "W/d/db/d/a"), ("rename", "W/d/db", "O/b"), ("mkdir", "W/d/db"), ("create", "W/d/db/a")]),
             ([("mkdir", "W/d")], [("rename", "W/d", "O/x"), ("mkdir", "W/d"), ("rmdir", "W/d"), ("rmdir", "O/x"), ("create", "W/a")]),
             ([("mkdir", "W/d"), ("mkdir", "W/d/dd")], [("rename", "W/d", "O/x"), ("create", "O/x/a"), ("rmtree", "O/x"), ("mkdir", "W/d")]),
             ([("mkdir", "W/d")], [("rename", "W/d", "O/x"), ("rename", "O/x", "W/dd"), ("create", "W/dd/a"), ("rmdir", "W/dd")]),
